@@ -124,7 +124,16 @@ def probe_md_alone_vs_batch(inp: Dict[str, Any]) -> Dict[str, Any]:
             "fields": {"what": ["md"], "engine": sc_a["engine"]}}
 
 
-PROBES = {"alone_vs_batch": probe_alone_vs_batch, "same_element_swap": probe_same_element_swap, "md_alone_vs_batch": probe_md_alone_vs_batch}
+def probe_shared_driver_positions(inp: Dict[str, Any]) -> Dict[str, Any]:
+    """one driver object evaluates the same molecules in different batch orders: every molecule keeps the result it has alone (position transparency
+    also when driver objects are kept between calls, as scripts that loop over batches do)"""
+    from . import c15
+    r = c15.probe_object_reuse({"method": inp["method"], "seq": inp["seq"], "converger": inp.get("converger", [1])})
+    r["fields"] = {"what": ["shared_driver_position"] if not r["ok"] else [], "method": inp["method"], "converger": inp.get("converger", [1])[0], "sp2": False, "excited": False}
+    return r
+
+
+PROBES = {"shared_driver_positions": probe_shared_driver_positions, "alone_vs_batch": probe_alone_vs_batch, "same_element_swap": probe_same_element_swap, "md_alone_vs_batch": probe_md_alone_vs_batch}
 
 
 def gen_cases(ctx: Ctx):
@@ -159,6 +168,7 @@ def gen_cases(ctx: Ctx):
     ucases = [(["ch2o", "h2o"], 1), (["h2o", "ch2o"], 0), (["ch4", "oh"], 1), (["c2h4", "no", "h2o"], 2), (["c2h4", "no", "h2o"], 1)]
     for i, (names, tgt) in enumerate(ucases[: (5 if ctx.thorough else 3)]):
         cases.append(("alone_vs_batch", {"names": names, "target": tgt, "method": methods[i % 3], "converger": [[1], [0, 0.3]][i % 2], "uhf": True, "tol": 1e-8, "eps": 1e-10}))
+    cases.append(("shared_driver_positions", {"method": methods[ctx.seed % 3], "seq": [["co+n2", "n2+co"], ["n2+co", "co+n2"], ["ch4+co", "co+ch4"]][ctx.seed % 3], "converger": [[1], [0, 0.3]][ctx.seed % 2]}))
     # excited states: homogeneous batch (same species, different coords handled via names repeated) and mixed
     cases.append(("alone_vs_batch", {"names": ["ch2o", "ch2o"], "target": 1, "method": "AM1", "converger": [1], "excited": {"n_states": 3, "method": "cis"}, "tol": 1e-8}))
     cases.append(("alone_vs_batch", {"names": ["h2o", "ch2o", "nh3"], "target": 1, "method": "AM1", "converger": [1], "excited": {"n_states": 2, "method": "cis"}, "tol": 1e-7}))
